@@ -96,13 +96,13 @@ type RPCSpec struct {
 	ReqMD   metadata.MD   `json:"req_md,omitempty"`
 	Timeout time.Duration `json:"timeout,omitempty"` // caller context deadline (0 = none)
 	// GrpcTimeout, if set, is sent as a grpc-timeout header only (handler-only deadline).
-	GrpcTimeout string `json:"grpc_timeout,omitempty"`
-	UseHeaderOpt  bool `json:"hdr_opt,omitempty"`
-	UseTrailerOpt bool `json:"trl_opt,omitempty"`
-	UsePeerOpt    bool `json:"peer_opt,omitempty"`
-	UseChanOpt    bool `json:"chan_opt,omitempty"`
-	Creds       map[string]string `json:"creds,omitempty"`
-	NoOutgoingMD bool             `json:"no_out_md,omitempty"`
+	GrpcTimeout   string            `json:"grpc_timeout,omitempty"`
+	UseHeaderOpt  bool              `json:"hdr_opt,omitempty"`
+	UseTrailerOpt bool              `json:"trl_opt,omitempty"`
+	UsePeerOpt    bool              `json:"peer_opt,omitempty"`
+	UseChanOpt    bool              `json:"chan_opt,omitempty"`
+	Creds         map[string]string `json:"creds,omitempty"`
+	NoOutgoingMD  bool              `json:"no_out_md,omitempty"`
 	// RawMethod, if set (use "<empty>" for the empty string), replaces the full method path.
 	RawMethod string `json:"raw_method,omitempty"`
 
@@ -144,17 +144,17 @@ type OpRec struct {
 	Size   int `json:"size,omitempty"`    // send: size submitted
 	MsgIdx int `json:"msg_idx,omitempty"` // send: index submitted
 
-	Err      string      `json:"err,omitempty"`
-	Code     codes.Code  `json:"code,omitempty"`
-	IsStatus bool        `json:"is_status,omitempty"`
-	EOF      bool        `json:"eof,omitempty"`
-	GotSize  int         `json:"got_size,omitempty"`
-	GotOK    bool        `json:"got_ok,omitempty"` // received payload equals the expected next payload
-	GotNote  string      `json:"got_note,omitempty"`
-	MD       metadata.MD `json:"md,omitempty"`
-	Details  int         `json:"details,omitempty"`
-	StatusMsg string     `json:"status_msg,omitempty"`
-	Extra    map[string]string `json:"extra,omitempty"`
+	Err       string            `json:"err,omitempty"`
+	Code      codes.Code        `json:"code,omitempty"`
+	IsStatus  bool              `json:"is_status,omitempty"`
+	EOF       bool              `json:"eof,omitempty"`
+	GotSize   int               `json:"got_size,omitempty"`
+	GotOK     bool              `json:"got_ok,omitempty"` // received payload equals the expected next payload
+	GotNote   string            `json:"got_note,omitempty"`
+	MD        metadata.MD       `json:"md,omitempty"`
+	Details   int               `json:"details,omitempty"`
+	StatusMsg string            `json:"status_msg,omitempty"`
+	Extra     map[string]string `json:"extra,omitempty"`
 
 	rawErr error
 	pub    *OpRec // the copy stored in the log (actors mutate their private record freely; it is published under the log lock)
@@ -165,10 +165,10 @@ func (r *OpRec) Open() bool { return r.RetSeq == 0 }
 
 // OpLog is the API-boundary log.
 type OpLog struct {
-	mu    sync.Mutex
-	recs  []*OpRec
-	seq   *atomic.Int64
-	start time.Time
+	mu          sync.Mutex
+	recs        []*OpRec
+	seq         *atomic.Int64
+	start       time.Time
 	Invocations []Invocation
 }
 
@@ -377,13 +377,13 @@ func (s *svcImpl) invoked(ctx context.Context, method string) (*RPCSpec, string)
 
 // handlerIO abstracts the unary and streaming handler surfaces.
 type handlerIO struct {
-	ctx       context.Context
-	recv      func(m any) error
-	send      func(m any) error // nil for unary
-	setHeader func(md metadata.MD) error
+	ctx        context.Context
+	recv       func(m any) error
+	send       func(m any) error // nil for unary
+	setHeader  func(md metadata.MD) error
 	sendHeader func(md metadata.MD) error
 	setTrailer func(md metadata.MD)
-	unaryResp *wrapperspb.BytesValue
+	unaryResp  *wrapperspb.BytesValue
 }
 
 func unaryHandler(srv any, ctx context.Context, dec func(any) error, _ grpc.UnaryServerInterceptor) (any, error) {
@@ -470,12 +470,15 @@ func (s *svcImpl) runHandler(spec *RPCSpec, tag string, hio *handlerIO) error {
 func (s *svcImpl) runHandlerOps(spec *RPCSpec, actor string, ops []Op, hio *handlerIO) (ret error) {
 	env := s.env
 	log := env.Log
+	// one message value reused by every receive of this actor (legal gRPC usage:
+	// RecvMsg has to reset it); pre-filled so that a receive which leaves it alone shows
+	var in wrapperspb.BytesValue
+	in.Value = []byte("stale-content-of-a-reused-message")
 	for i, op := range ops {
 		rec := &OpRec{Actor: actor, RPC: spec.ID, Side: "handler", K: op.K, Idx: i}
 		switch op.K {
 		case "recv":
 			log.call(rec)
-			var in wrapperspb.BytesValue
 			err := hio.recv(&in)
 			if err == nil {
 				checkPayload(rec, spec.ID, dirReq, int(spec.hdlRecvd.Add(1))-1, in.Value)
@@ -485,7 +488,6 @@ func (s *svcImpl) runHandlerOps(spec *RPCSpec, actor string, ops []Op, hio *hand
 			for {
 				r := &OpRec{Actor: actor, RPC: spec.ID, Side: "handler", K: "recv", Idx: i}
 				log.call(r)
-				var in wrapperspb.BytesValue
 				err := hio.recv(&in)
 				if err == nil {
 					checkPayload(r, spec.ID, dirReq, int(spec.hdlRecvd.Add(1))-1, in.Value)
@@ -709,6 +711,8 @@ func (spec *RPCSpec) callOpts() []grpc.CallOption {
 
 func (e *Env) runClientOps(spec *RPCSpec, actor string, ops []Op) {
 	log := e.Log
+	// one message value reused by every receive of this actor (see runHandlerOps)
+	in := &wrapperspb.BytesValue{Value: []byte("stale-content-of-a-reused-message")}
 	for i, op := range ops {
 		rec := &OpRec{Actor: actor, RPC: spec.ID, Side: "client", K: op.K, Idx: i}
 		switch op.K {
@@ -716,7 +720,7 @@ func (e *Env) runClientOps(spec *RPCSpec, actor string, ops []Op) {
 			idx := int(spec.reqIdx.Add(1)) - 1
 			rec.Size, rec.MsgIdx = op.N, idx
 			req := &wrapperspb.BytesValue{Value: GenPayload(spec.ID, dirReq, idx, op.N)}
-			var resp wrapperspb.BytesValue
+			resp := wrapperspb.BytesValue{Value: []byte("stale-content-of-a-reused-message")}
 			log.call(rec)
 			err := spec.ch.Invoke(spec.ctx, spec.path(), req, &resp, spec.callOpts()...)
 			if err == nil {
@@ -764,11 +768,11 @@ func (e *Env) runClientOps(spec *RPCSpec, actor string, ops []Op) {
 			log.call(rec)
 			log.ret(rec, spec.stream.CloseSend())
 		case "recv":
-			e.clientRecv(spec, rec)
+			e.clientRecv(spec, rec, in)
 		case "recvall":
 			for {
 				r := &OpRec{Actor: actor, RPC: spec.ID, Side: "client", K: "recv", Idx: i}
-				if err := e.clientRecv(spec, r); err != nil {
+				if err := e.clientRecv(spec, r, in); err != nil {
 					break
 				}
 			}
@@ -842,10 +846,9 @@ func (e *Env) captureOpts(rec *OpRec, spec *RPCSpec) {
 	}
 }
 
-func (e *Env) clientRecv(spec *RPCSpec, rec *OpRec) error {
-	var in wrapperspb.BytesValue
+func (e *Env) clientRecv(spec *RPCSpec, rec *OpRec, in *wrapperspb.BytesValue) error {
 	e.Log.call(rec)
-	err := spec.stream.RecvMsg(&in)
+	err := spec.stream.RecvMsg(in)
 	if err == nil {
 		checkPayload(rec, spec.ID, dirResp, int(spec.cliRecvd.Add(1))-1, in.Value)
 	} else {
